@@ -15,7 +15,6 @@ import (
 	"net/http"
 	"net/http/httptest"
 	"net/url"
-	"os"
 	"strings"
 	"testing"
 
@@ -323,9 +322,6 @@ func runResp(t *testing.T, c *engine.Check) {
 							return
 						}
 						res.Outcome = respClass(sv.resp)
-						if os.Getenv("C09_RESP_DEBUG") != "" && rc.fpos != "none" {
-							res.Outcome = "reached@" + rc.fpos
-						}
 						// non-vacuity: the plain success history must deliver the success answer
 						if rc.scen == "login-callback" && rc.fpos == "none" && rc.method == "GET" && std[rc.rt] && stdMode[rc.rm] &&
 							(rc.cl.name == "web" || rc.cl.name == "hyb" || rc.cl.name == "hyb?query") {
